@@ -419,3 +419,9 @@ Proof.
   - simpl. symmetry. apply corner_sum_empty.
   - cbn [slab_sum]. rewrite IH. rewrite last_cons. symmetry. apply corner_sum_cut_x.
 Qed.
+
+(* ---------------- completeness of the vertex list; non-vacuity witness *)
+Lemma mesh_vertices_complete {A} (eqb ltb : A -> A -> bool) :
+  (forall x y, eqb x y = true <-> x = y) ->
+  forall (mesh : list (tri3 A)) (v : A), In v (mesh_vertices eqb ltb mesh) <-> In v (flatten3 mesh).
+Proof. intros H mesh v. unfold mesh_vertices. apply unique_rows_in. exact H. Qed.
